@@ -7,13 +7,13 @@
 From Irismod Require Import Genesis.Store.
 (** No free-standing invariant:
 
-    For record, coinswap, random, nft and mt the reachability invariant [invb] is DERIVED from the other groups'
+    For record, coinswap, random, nft, mt and htlc the reachability invariant [invb] is DERIVED from the other groups'
     message-level models ([Genesis/Link<Mod>.v]): an abstraction [abs] maps a state of that model to the
     genesis-level state (renaming ids by an injective numbering, sorting the stores the way the KV store
     iterates), and [reachable_<mod>] proves [invb (abs (run h)) = true] for every history [h] from that
     model's proved invariants (plus small extra invariants proved over its step function).  The C12
     statements then quantify over histories. *)
-From Irismod Require Genesis.LinkRecord Genesis.LinkCoinswap Genesis.LinkRandom Genesis.LinkNft Genesis.LinkMt.
+From Irismod Require Genesis.LinkRecord Genesis.LinkCoinswap Genesis.LinkRandom Genesis.LinkNft Genesis.LinkMt Genesis.LinkHtlc.
 
 Module LinkRecordC12.
 Import Genesis.LinkRecord.
@@ -137,3 +137,69 @@ Theorem mt_history_fixpoint_and_queries :
 Proof. exact LinkMt.mt_history_fixpoint_and_queries. Qed.
 Print Assumptions mt_history_fixpoint_and_queries.
 End LinkMtC12.
+
+(** ** htlc: [invb] derived from the message-level model of the htlc group ([Htlc/Model.v], [Htlc/Proofs.v]:
+    [Inv], [Strict]) plus the small invariant [J] of [Genesis/LinkHtlc.v].  Histories: from a genesis with
+    parameters that Keeper.SetParams accepts and an empty escrow account, any operations WITHOUT parameter
+    changes ([wf_op]; a MsgUpdateParams can make the exported genesis un-importable — known finding, clause 7
+    of the check) whose transfers carry a timestamp ([ts_ok]).  [rk] numbers the contract ids (injective on the
+    ids of the state), [oth] gives the lengths of the other-chain address strings.  [abs] is the whole store,
+    [abs_o] the store without the closed contracts (which ExportGenesis drops, documented). *)
+Module LinkHtlcC12.
+Import Genesis.LinkHtlc.
+
+Theorem reachable_htlc :
+  forall (rk : M.cid -> Z) (hl : M.hlock -> Z) (rs : Z -> Z) (oth : M.cid -> Z * Z),
+  (forall id, fst (oth id) <= 128 /\ snd (oth id) <= 128) ->
+  forall P b t0 ops, M.params_valid P = true -> MP.escrow_empty b -> Forall MP.wf_op ops -> Forall ts_ok ops ->
+  inj_on rk (map fst (M.st_contracts (MP.reachable P b t0 ops))) ->
+  G.invb true (abs_o rk hl rs oth (MP.reachable P b t0 ops)) = true.
+Proof. exact LinkHtlc.reachable_htlc. Qed.
+Print Assumptions reachable_htlc.
+
+Theorem htlc_history_export_validates :
+  forall (rk : M.cid -> Z) (hl : M.hlock -> Z) (rs : Z -> Z) (oth : M.cid -> Z * Z),
+  (forall id, fst (oth id) <= 128 /\ snd (oth id) <= 128) ->
+  forall P b t0 ops, M.params_valid P = true -> MP.escrow_empty b -> Forall MP.wf_op ops -> Forall ts_ok ops ->
+  inj_on rk (map fst (M.st_contracts (MP.reachable P b t0 ops))) ->
+  G.validate true (G.export (abs rk hl rs oth (MP.reachable P b t0 ops))) = true.
+Proof. exact LinkHtlc.htlc_history_export_validates. Qed.
+Print Assumptions htlc_history_export_validates.
+
+(** import does not panic, and the new chain's state is the old one's without its closed contracts — the
+    expiration queue included (it is rebuilt from the open contracts and equals the old queue) *)
+Theorem htlc_history_import_is_open_part :
+  forall (rk : M.cid -> Z) (hl : M.hlock -> Z) (rs : Z -> Z) (oth : M.cid -> Z * Z),
+  (forall id, fst (oth id) <= 128 /\ snd (oth id) <= 128) ->
+  forall P b t0 ops, M.params_valid P = true -> MP.escrow_empty b -> Forall MP.wf_op ops -> Forall ts_ok ops ->
+  inj_on rk (map fst (M.st_contracts (MP.reachable P b t0 ops))) ->
+  G.import true (G.export (abs rk hl rs oth (MP.reachable P b t0 ops))) = Some (abs_o rk hl rs oth (MP.reachable P b t0 ops)).
+Proof. exact LinkHtlc.htlc_history_import_is_open_part. Qed.
+Print Assumptions htlc_history_import_is_open_part.
+
+Theorem htlc_history_fixpoint_and_queries :
+  forall (rk : M.cid -> Z) (hl : M.hlock -> Z) (rs : Z -> Z) (oth : M.cid -> Z * Z),
+  (forall id, fst (oth id) <= 128 /\ snd (oth id) <= 128) ->
+  forall P b t0 ops, M.params_valid P = true -> MP.escrow_empty b -> Forall MP.wf_op ops -> Forall ts_ok ops ->
+  inj_on rk (map fst (M.st_contracts (MP.reachable P b t0 ops))) ->
+  exists s', G.import true (G.export (abs rk hl rs oth (MP.reachable P b t0 ops))) = Some s'
+    /\ G.export s' = G.export (abs rk hl rs oth (MP.reachable P b t0 ops))
+    /\ G.queries s' = G.queries (abs rk hl rs oth (MP.reachable P b t0 ops))
+    /\ G.queue s' = G.queue_of (G.htlcs s').
+Proof. exact LinkHtlc.htlc_history_fixpoint_and_queries. Qed.
+Print Assumptions htlc_history_fixpoint_and_queries.
+
+(** after PrepForZeroHeightGenesis at the state's height the invariant holds again (and with it the four
+    statements of [Props/C12.v] for the prepared state); import of the prepared export does not panic *)
+Theorem htlc_history_prep :
+  forall (rk : M.cid -> Z) (hl : M.hlock -> Z) (rs : Z -> Z) (oth : M.cid -> Z * Z),
+  (forall id, fst (oth id) <= 128 /\ snd (oth id) <= 128) ->
+  forall P b t0 ops, M.params_valid P = true -> MP.escrow_empty b -> Forall MP.wf_op ops -> Forall ts_ok ops ->
+  let s := MP.reachable P b t0 ops in
+  inj_on rk (map fst (M.st_contracts s)) ->
+  (forall id c, In (id, c) (M.st_contracts s) -> M.c_exp c < G.two64) ->
+  G.invb true (G.prep (M.st_height s) (abs_o rk hl rs oth s)) = true
+  /\ G.import true (G.export (G.prep (M.st_height s) (abs_o rk hl rs oth s))) <> None.
+Proof. exact LinkHtlc.htlc_history_prep. Qed.
+Print Assumptions htlc_history_prep.
+End LinkHtlcC12.
